@@ -7,21 +7,26 @@
 EXTENDS Gzip, Json, TLC
 
 MCReqsFull  == [ae : {"yes", "no", "refused"}, ct : {"match", "nomatch", "absent"}, enc : {"", "br"},
-                cl : {FALSE, TRUE}, acc : {"other", "sse"}, method : {"GET", "HEAD"}, late : {FALSE}]
+                cl : {FALSE, TRUE}, acc : {"other", "sse"}, method : {"GET", "HEAD"}, late : {FALSE}, vary : {""}]
 MCReqsMid   == [ae : {"yes", "no", "refused"}, ct : {"match", "nomatch"}, enc : {"", "br"},
-                cl : {FALSE, TRUE}, acc : {"other"}, method : {"GET"}, late : {FALSE}]
+                cl : {FALSE, TRUE}, acc : {"other"}, method : {"GET"}, late : {FALSE}, vary : {""}]
 \* informational headers: the parameters that matter for them, with the response headers set early or late
 MCReqsInfo  == [ae : {"yes", "no", "refused"}, ct : {"match", "nomatch"}, enc : {"", "br"},
-                cl : {FALSE, TRUE}, acc : {"other"}, method : {"GET", "HEAD"}, late : {FALSE, TRUE}]
-MCReqsInfoPair == [ae : {"yes", "no"}, ct : {"match"}, enc : {""}, cl : {TRUE}, acc : {"other"}, method : {"GET"}, late : {FALSE, TRUE}]
+                cl : {FALSE, TRUE}, acc : {"other"}, method : {"GET", "HEAD"}, late : {FALSE, TRUE}, vary : {""}]
+MCReqsInfoPair == [ae : {"yes", "no"}, ct : {"match"}, enc : {""}, cl : {TRUE}, acc : {"other"}, method : {"GET"}, late : {FALSE, TRUE}, vary : {""}]
 \* Accept-Encoding classes incl. wildcard / several codings / q-values in any order
 MCReqsAE    == [ae : {"yes", "no", "refused", "refusedwild", "wild"}, ct : {"match", "nomatch"}, enc : {""},
-                cl : {FALSE, TRUE}, acc : {"other"}, method : {"GET"}, late : {FALSE}]
+                cl : {FALSE, TRUE}, acc : {"other"}, method : {"GET"}, late : {FALSE}, vary : {""}]
 \* streamed responses (Flush between chunks / before the first one)
 MCReqsFlush == [ae : {"yes", "no", "refused"}, ct : {"match", "nomatch"}, enc : {"", "br"},
-                cl : {FALSE, TRUE}, acc : {"other", "sse"}, method : {"GET", "HEAD"}, late : {FALSE}]
-MCReqsPair  == [ae : {"yes", "refused"}, ct : {"match", "nomatch"}, enc : {"", "br"}, cl : {TRUE}, acc : {"other"}, method : {"GET"}, late : {FALSE}]
-MCReqsSmall == [ae : {"yes", "no"}, ct : {"match"}, enc : {""}, cl : {TRUE}, acc : {"other"}, method : {"GET"}, late : {FALSE}]
+                cl : {FALSE, TRUE}, acc : {"other", "sse"}, method : {"GET", "HEAD"}, late : {FALSE}, vary : {""}]
+\* histories on one instance: responses that carry a Vary value of their own / are aborted, then ordinary ones
+MCReqsHist  == [ae : {"yes", "no"}, ct : {"match", "nomatch"}, enc : {"", "br"}, cl : {FALSE, TRUE},
+                acc : {"other"}, method : {"GET"}, late : {FALSE}, vary : {"", "own"}]
+MCReqsHistPair == [ae : {"yes"}, ct : {"match", "nomatch"}, enc : {""}, cl : {TRUE},
+                   acc : {"other"}, method : {"GET"}, late : {FALSE}, vary : {"", "own"}]
+MCReqsPair  == [ae : {"yes", "refused"}, ct : {"match", "nomatch"}, enc : {"", "br"}, cl : {TRUE}, acc : {"other"}, method : {"GET"}, late : {FALSE}, vary : {""}]
+MCReqsSmall == [ae : {"yes", "no"}, ct : {"match"}, enc : {""}, cl : {TRUE}, acc : {"other"}, method : {"GET"}, late : {FALSE}, vary : {""}]
 MCOne == {1}
 MCTwo == {1, 2}
 MCThree == {1, 2, 3}
@@ -36,7 +41,7 @@ MCChunksSmall == {"a"}
 
 HandlerJson(h) ==
     LET st == hs[h] IN
-    [started |-> st.pc # "idle", req |-> st.req, ops |-> st.ops, status |-> ExpStatus(h),
+    [started |-> st.pc # "idle", aborted |-> st.pc = "aborted", req |-> st.req, ops |-> st.ops, status |-> ExpStatus(h),
      body_allowed |-> BodyAllowed(ExpStatus(h), st.req.method),
      \* status and "may have a body" under both readings of Flush (got through / no-op)
      alts |-> {[flush |-> hn, status |-> StatusUnder(st.ops, hn), body_allowed |-> BodyAllowed(StatusUnder(st.ops, hn), st.req.method)] : hn \in BOOLEAN},
@@ -55,6 +60,7 @@ GenNext == \E h \in Handlers :
              \/ (\E c \in Codes : WriteHeader(h, c)) /\ PrintT(ToJson(BehaviourJson'))
              \/ (\E k \in Chunks : Write(h, k)) /\ PrintT(ToJson(BehaviourJson'))
              \/ (WithFlush /\ FlushOp(h)) /\ PrintT(ToJson(BehaviourJson'))
+             \/ (WithAbort /\ Abort(h)) /\ PrintT(ToJson(BehaviourJson'))
              \/ FinishFlush(h) /\ PrintT(ToJson(BehaviourJson'))
              \/ FinishPut(h)
 GenSpec == Init /\ [][GenNext]_vars
